@@ -1,36 +1,27 @@
 import Driver.Fam.Val
 import CifModel.Model.Heap
 import CifModel.Model.HeapClone
+import CifModel.Model.HeapHist
 /-
   family `valheap` (properties C19 / C16): the same operation sequences as family `val`, executed on the HEAP model
-  (Model/Heap.lean).  The answer is, per operation, the change in the number of live heap blocks the model predicts —
-  live cells of the model heap plus two blocks (uthash's table and bucket array) for every non-empty map — and, at the
-  end, the number of blocks still live after every slot has been released (0).  The executor reports the same numbers
-  from the allocation tracker of harness/alloc.h, so the model's malloc/free protocol is tied to the C call by call.
+  (Model/Heap.lean) by the heap interpretation of the history op language, `CifModel.Model.Hist.traceH` (Model/HeapHist.lean) —
+  the function the theorems `C19_history_heap` / `C19_history_release` are about.  Every request op is translated to one
+  `HOp` (`Driver.Fam.Val.parseOp`, shared with family val).  The answer is, per operation, the change in the number of live
+  heap blocks the model predicts — live cells of the model heap plus two blocks (uthash's table and bucket array) for every
+  non-empty map — and, at the end, the number of blocks still live after every slot has been released (`Hist.releaseAll`: 0).
+  The executor reports the same numbers from the allocation tracker of harness/alloc.h, so the model's malloc/free protocol
+  is tied to the C call by call.
 
     valheap <ops as in family val>   ↦   vh <delta>:<n>:<sum> … # end=<live blocks after releasing every slot>
   `<n>` = number of live string blocks (texts, digit strings, su digit strings, keys, original spellings) after the
   operation, `<sum>` = sum mod 2^64 of the FNV-1a hashes of their contents: the executor's dump hook computes the same from the
   real blocks, so the CONTENTS of the string blocks are compared as a multiset after every operation.
-  (an operation that does not resolve — the executor skips it — counts 0.)
+  (an operation that does not resolve — the executor skips it — leaves the state as it is and counts 0.)
 -/
 namespace Driver.Fam.Valheap
 open Driver CifModel CifModel.Model.Heap
-open Driver.Fam.Val (Root Ref parseRef parseKey parseSlot parseSrc splitOps)
-open CifModel.Model.Value (Step)
-
-structure St where
-  h : Heap
-  vals : List (Option Nat)        -- address of the object a value slot holds (a `val` block, or a detached `entry`)
-  pkts : List (Option Nat)        -- address of the packet block
-
-def St.init : St := { h := Heap.empty, vals := List.replicate 8 none, pkts := List.replicate 4 none }
-
-/-- the same heap with its cell map tabulated (the model heap is a function; every alloc / free / write wraps it once more,
-    so the driver flattens it after each operation to keep look-ups cheap) -/
-def compact (h : Heap) : Heap :=
-  let arr : Array (Option Cell) := (Array.range h.next).map h.cell
-  { cell := fun a => if hlt : a < arr.size then arr[a] else none, next := h.next }
+open Driver.Fam.Val (parseOp splitOps)
+open CifModel.Model.Hist (HState traceH releaseAll)
 
 /-- live blocks: model cells + 2 per non-empty uthash map -/
 def total (h : Heap) : Nat :=
@@ -63,441 +54,13 @@ def summaryStr (h : Heap) : String :=
   let (n, s) := strSummary h
   ":" ++ toString n ++ ":" ++ hex16 s
 
-def getHV (h : Heap) (a : Nat) : Option HVal :=
-  match h.cell a with
-  | some (.val hv) => some hv
-  | some (.entry hv _ _) => some hv
-  | _ => none
-
-def putHV (h : Heap) (a : Nat) (hv : HVal) : Option Heap :=
-  match h.cell a with
-  | some (.val _) => write h a (.val hv)
-  | some (.entry _ k ko) => write h a (.entry hv k ko)
-  | _ => none
-
-def strOf (h : Heap) (a : Nat) : Option Str :=
-  match h.cell a with
-  | some (.str s) => some s
-  | _ => none
-
-mutual
-  /-- the pure value an object represents (reads the heap; fuel bounds the depth) -/
-  def absHV : Nat → Heap → HVal → Option V
-    | 0, _, _ => none
-    | _ + 1, _, .unk => some .unk
-    | _ + 1, _, .na => some .na
-    | _ + 1, h, .chr q a => (strOf h a).map (fun t => .chr q t)
-    | _ + 1, h, .numb q neg sc a b su => do
-        let t ← strOf h a
-        let d ← strOf h b
-        let s ← match su with
-          | none => some none
-          | some c => (strOf h c).map some
-        pure (.numb q t neg d s sc)
-    | _ + 1, _, .lst none _ => some (.lst [])
-    | fuel + 1, h, .lst (some arr) _ =>
-        match h.cell arr with
-        | some (.arr xs _) => (absElems fuel h xs).map V.lst
-        | _ => none
-    | fuel + 1, h, .tbl ents => (absEntries fuel h ents).map V.tbl
-  def absElems : Nat → Heap → List Nat → Option (List V)
-    | 0, _, _ => none
-    | _ + 1, _, [] => some []
-    | fuel + 1, h, x :: xs => do
-        let hv ← getHV h x
-        let v ← absHV fuel h hv
-        let vs ← absElems fuel h xs
-        pure (v :: vs)
-  def absEntries : Nat → Heap → List Nat → Option (List (Str × Str × V))
-    | 0, _, _ => none
-    | _ + 1, _, [] => some []
-    | fuel + 1, h, e :: es =>
-        match h.cell e with
-        | some (.entry hv k ko) => do
-            let ks ← strOf h k
-            let kos ← strOf h ko
-            let v ← absHV fuel h hv
-            let rest ← absEntries fuel h es
-            pure ((ks, kos, v) :: rest)
-        | _ => none
-end
-
-def FUEL : Nat := 100000
-
-def absAt (h : Heap) (a : Nat) : Option V := (getHV h a).bind (absHV FUEL h)
-
-/-- address of the object a reference designates -/
-def stepH (h : Heap) (a : Nat) (s : Step) : Option Nat :=
-  match getHV h a, s with
-  | some (.lst (some arr) _), .idx i =>
-    match h.cell arr with
-    | some (.arr xs _) => xs[i]?
-    | _ => none
-  | some (.tbl ents), .key nk => (findEntry h ents nk).bind id
-  | _, _ => none
-
-def resolveFrom (h : Heap) : Nat → List Step → Option Nat
-  | a, [] => some a
-  | a, s :: p => (stepH h a s).bind (fun b => resolveFrom h b p)
-
-def resolveRef (st : St) (r : Ref) : Option Nat :=
-  match r.root with
-  | .val k => (st.vals.getD k none).bind (fun a => resolveFrom st.h a r.path)
-  | .pkt k =>
-    match st.pkts.getD k none, r.path with
-    | some p, .key nk :: rest =>
-      match st.h.cell p with
-      | some (.pkt ents _) => ((findEntry st.h ents nk).bind id).bind (fun e => resolveFrom st.h e rest)
-      | _ => none
-    | _, _ => none
-
-/-- cif_value_create -/
-def createVal (h : Heap) (kind : Nat) : Option (Nat × Heap) :=
-  if kind = 2 then some (alloc h (.val (.lst none 0)))
-  else if kind = 3 then some (alloc h (.val (.tbl [])))
-  else (CifModel.Model.Value.defaultOf kind).map (buildNew h)
-
-/-- the fields cif_value_init gives an existing object (after cleaning it) -/
-def initFields (h : Heap) (kind : Nat) : Option (HVal × Heap) :=
-  if kind = 2 then some (.lst none 0, h)
-  else if kind = 3 then some (.tbl [], h)
-  else (CifModel.Model.Value.defaultOf kind).map (buildVal h)
-
-/-- the entries of the map held at object `a` (a table value) -/
-def tableEnts (h : Heap) (a : Nat) : Option (List Nat) :=
-  match getHV h a with
-  | some (.tbl ents) => some ents
-  | _ => none
-
-/-- build_value of harness/cifio.h: through the API — lists by successive inserts, tables by successive sets -/
-partial def apiBuild (h : Heap) (v : V) : Option (Nat × Heap) :=
-  match v with
-  | .lst vs => do
-      let (a, h1) := alloc h (.val (.lst none 0))
-      let mut g := h1
-      let mut n := 0
-      for x in vs do
-        let hv ← getHV g a
-        let (hv', g') ← listInsertH g hv n (some x)
-        g ← (putHV g' a hv').map compact
-        n := n + 1
-      pure (a, g)
-  | .tbl es => do
-      let (a, h1) := alloc h (.val (.tbl []))
-      let mut g := h1
-      for (k, ko, x) in es do
-        let ents ← tableEnts g a
-        let (ents', g') ← mapSetItemH FUEL g ents k ko (some x)
-        g ← (putHV g' a (.tbl ents')).map compact
-      pure (a, g)
-  | _ => some (buildNew h v)
-
-/-- release whatever a value slot holds: a free-standing object, or an entry handed out by a remove -/
-def freeObj (h : Heap) (a : Nat) : Option Heap :=
-  match h.cell a with
-  | some (.val _) => freeVal FUEL h a
-  | some (.entry _ _ _) => freeDetached FUEL h a
-  | _ => none
-
-/-- cif_value_clone(src, &dst) onto the existing object at `t` (fields inline in a `val` or `entry` block): the scratch copy
-    is made by READING the source object at `sa` (`cloneNewH`), then clean, move, release the scratch object -/
-def cloneOntoAt (h : Heap) (t : Nat) (sa : Nat) : Option Heap := do
-  let (c, h1) ← cloneNewH FUEL h sa
-  let new ← getHV h1 c
-  let old ← getHV h1 t
-  let h2 ← cleanVal FUEL h1 old
-  let h3 ← putHV h2 t new
-  free h3 c
-
-def cleanAt (h : Heap) (t : Nat) : Option Heap := do
-  let old ← getHV h t
-  let h1 ← cleanVal FUEL h old
-  putHV h1 t .unk
-
-/-- the entries and owner of the map a reference designates: a table value object, or a packet -/
-inductive MapAt | tbl (a : Nat) (ents : List Nat) | pkt (p : Nat) (ents : List Nat) | notMap
-
-def mapAt (st : St) (r : Ref) : Option MapAt :=
-  match r.root, r.path with
-  | .pkt k, [] =>
-    match st.pkts.getD k none with
-    | some p =>
-      match st.h.cell p with
-      | some (.pkt ents _) => some (.pkt p ents)
-      | _ => none
-    | none => none
-  | _, _ =>
-    match resolveRef st r with
-    | none => none
-    | some a =>
-      match getHV st.h a with
-      | some (.tbl ents) => some (.tbl a ents)
-      | some _ => some .notMap
-      | none => none
-
-def putEnts (h : Heap) (m : MapAt) (ents : List Nat) : Option Heap :=
-  match m with
-  | .tbl a _ => putHV h a (.tbl ents)
-  | .pkt p _ =>
-    match h.cell p with
-    | some (.pkt _ sa) => write h p (.pkt ents sa)
-    | _ => none
-  | .notMap => none
-
-def setSlot (st : St) (k : Nat) (a : Option Nat) : St := { st with vals := st.vals.set k a }
-
-/-- one operation on the heap model; `none` = does not resolve -/
-def step (st : St) (op : List String) : Option St :=
-  match op with
-  | ["new", s, k] => do
-      let r ← parseSlot s; let kind ← k.toNat?
-      match r with
-      | .val i =>
-        if (st.vals.getD i none).isSome then none
-        else match createVal st.h kind with
-          | some (a, h') => pure { (setSlot st i (some a)) with h := h' }
-          | none => pure st
-      | _ => none
-  | "bld" :: s :: toks => do
-      let r ← parseSlot s
-      match r, CifArg.parseValue (Ser.cfg) (toks.length + 1) toks with
-      | .val i, some (v, []) =>
-        if (st.vals.getD i none).isSome then none
-        else do
-          let (a, h') ← apiBuild st.h v
-          pure { (setSlot st i (some a)) with h := h' }
-      | _, _ => none
-  | ["free", s] => do
-      let r ← parseSlot s
-      match r with
-      | .val i => do
-          let a ← st.vals.getD i none
-          let h' ← freeObj st.h a
-          pure { (setSlot st i none) with h := h' }
-      | _ => none
-  | ["cln", a, b] => do
-      let src ← parseRef a; let dst ← parseRef b
-      let sa ← resolveRef st src
-      match dst.root, dst.path with
-      | .val i, [] =>
-        match st.vals.getD i none with
-        | none => do
-          let (c, h') ← cloneNewH FUEL st.h sa
-          pure { (setSlot st i (some c)) with h := h' }
-        | some t => if t = sa then pure st else do
-            let h' ← cloneOntoAt st.h t sa
-            pure { st with h := h' }
-      | _, _ => do
-          let t ← resolveRef st dst
-          if t = sa then pure st else do
-            let h' ← cloneOntoAt st.h t sa
-            pure { st with h := h' }
-  | ["init", a, k] => do
-      let r ← parseRef a; let kind ← k.toNat?; let t ← resolveRef st r
-      if kind = 1 then do
-        -- cif_value_init_numb builds the number first and cleans the object afterwards
-        let (hv, h1) := buildVal st.h (.numb false [48] false [0] none 0)
-        let old ← getHV h1 t
-        let h2 ← cleanVal FUEL h1 old
-        let h3 ← putHV h2 t hv
-        pure { st with h := h3 }
-      else do
-        let h1 ← cleanAt st.h t
-        match initFields h1 kind with
-        | some (hv, h2) => do let h3 ← putHV h2 t hv; pure { st with h := h3 }
-        | none => pure { st with h := h1 }
-  | ["ichr", a, hx] => do
-      let r ← parseRef a; let txt ← unhex hx; let t ← resolveRef st r
-      let (ta, h1) := alloc st.h (.str txt)
-      let old ← getHV h1 t
-      let h2 ← cleanVal FUEL h1 old
-      let h3 ← putHV h2 t (.chr true ta)
-      pure { st with h := h3 }
-  | ["cchr", a, hx] => do
-      let r ← parseRef a; let txt ← unhexOpt hx; let t ← resolveRef st r
-      match txt with
-      | none => pure st
-      | some s => do
-        let (ta, h1) := alloc st.h (.str s)
-        let old ← getHV h1 t
-        let h2 ← cleanVal FUEL h1 old
-        let h3 ← putHV h2 t (.chr true ta)
-        pure { st with h := h3 }
-  | ["kind", a] => do let r ← parseRef a; let _ ← resolveRef st r; pure st
-  | ["text", a] => do let r ← parseRef a; let _ ← resolveRef st r; pure st
-  | ["cnt", a] => do let r ← parseRef a; let _ ← resolveRef st r; pure st
-  | ["lget", a, _] => do let r ← parseRef a; let _ ← resolveRef st r; pure st
-  | ["tkeys", a] => do let r ← parseRef a; let _ ← resolveRef st r; pure st
-  | ["lset", a, i, s] => do
-      let r ← parseRef a; let idx ← i.toNat?; let src ← parseSrc s; let la ← resolveRef st r
-      match getHV st.h la with
-      | some (.lst elems size) =>
-        if idx ≥ size then
-          match src with
-          | none => pure st
-          | some sr => do let _ ← resolveRef st sr; pure st
-        else do
-          let t ← stepH st.h la (.idx idx)
-          let _ := elems
-          match src with
-          | none => do let h' ← cleanAt st.h t; pure { st with h := h' }
-          | some sr => do
-            let sa ← resolveRef st sr
-            if sa = t then pure st else do
-              let h' ← cloneOntoAt st.h t sa
-              pure { st with h := h' }
-      | some _ =>
-        match src with
-        | none => pure st
-        | some sr => do let _ ← resolveRef st sr; pure st
-      | none => none
-  | ["lins", a, i, s] => do
-      let r ← parseRef a; let idx ← i.toNat?; let src ← parseSrc s; let la ← resolveRef st r
-      let x : Option Nat ← match src with
-        | none => some none
-        | some sr => do let sa ← resolveRef st sr; pure (some sa)
-      match getHV st.h la with
-      | some (.lst elems size) =>
-        if idx > size then pure st
-        else do
-          let (hv', h1) ← listInsertAddrH FUEL st.h (.lst elems size) idx x
-          let h2 ← putHV h1 la hv'
-          pure { st with h := h2 }
-      | some _ => pure st
-      | none => none
-  | ["lrem", a, i, d] => do
-      let r ← parseRef a; let idx ← i.toNat?; let la ← resolveRef st r
-      match getHV st.h la with
-      | some (.lst elems size) =>
-        if idx ≥ size then pure st
-        else do
-          let toCaller := d != "~"
-          let (hv', x, h1) ← listRemoveH FUEL st.h (.lst elems size) idx toCaller
-          let h2 ← putHV h1 la hv'
-          if toCaller then
-            match parseSlot d, x with
-            | some (.val k), some xa =>
-              if (st.vals.getD k none).isSome then none else pure { (setSlot st k (some xa)) with h := h2 }
-            | _, _ => none
-          else pure { st with h := h2 }
-      | some _ => pure st
-      | none => none
-  | ["tget", a, k] => do let r ← parseRef a; let _ ← parseKey k; let _ ← resolveRef st r; pure st
-  | ["pget", p, k] => do let r ← parseSlot p; let _ ← parseKey k; let _ ← mapAt st { root := r, path := [] }; pure st
-  | ["pnames", p] => do let r ← parseSlot p; let _ ← mapAt st { root := r, path := [] }; pure st
-  | "pnew" :: p :: n :: names => do
-      let r ← parseSlot p; let cnt ← n.toNat?
-      if names.length != cnt then none
-      let keys ← names.mapM parseKey
-      match r with
-      | .pkt i =>
-        if (st.pkts.getD i none).isSome then none
-        else if keys.any (fun k => k.2.isNone) then pure st
-        else do
-          let (res, h') ← packetCreateH st.h (keys.map (fun k => (k.1, k.2.getD [])))
-          match res with
-          | none => pure { st with h := h' }
-          | some (pa, _) => pure { st with h := h', pkts := st.pkts.set i (some pa) }
-      | _ => none
-  | [opn, a, k, s] =>
-    if opn == "tset" || opn == "pset" then do
-      let r ← if opn == "pset" then (parseSlot a).map (fun rt => ({ root := rt, path := [] } : Ref)) else parseRef a
-      let key ← parseKey k; let src ← parseSrc s
-      let m ← mapAt st r
-      let srcAddr : Option Nat ← match src with
-        | none => some none
-        | some sr => (resolveRef st sr).map some
-      match m with
-      | .notMap => pure st
-      | _ =>
-        let ents := match m with | .tbl _ e => e | .pkt _ e => e | .notMap => []
-        match key.2 with
-        | none => pure st
-        | some nk =>
-          match (findEntry st.h ents nk) with
-          | none => none
-          | some (some e) =>
-            -- existing entry: spelling first, then the value unless it is the very object
-            if srcAddr = some e then do
-              let (kn, h0) := alloc st.h (.str nk)
-              let h1 ← entryRespell false h0 e key.1
-              let h2 ← free h1 kn
-              pure { st with h := h2 }
-            else
-              -- the C's order: new spelling, then cif_value_clone(src, &entry value) — scratch copy read from the source
-              -- first (it may lie inside the entry), clean, move — resp. clean + unknown for NULL; normalised key released.
-              -- For a source outside the map this is `mapSetItemAddrH` (= `mapSetItemH` on the value represented:
-              -- mapSetItemAddrH_eq), which the driver uses when it succeeds.
-              match mapSetItemAddrH FUEL FUEL st.h ents nk key.1 srcAddr with
-              | some (ents', h1) => do
-                let h2 ← putEnts h1 m ents'
-                pure { st with h := h2 }
-              | none => do
-                let (kn, h0) := alloc st.h (.str nk)
-                let h1 ← entryRespell false h0 e key.1
-                let h2 ← match srcAddr with
-                  | none => entrySetValue FUEL h1 e none
-                  | some sa => cloneOntoAt h1 e sa
-                let h3 ← free h2 kn
-                pure { st with h := h3 }
-          | some none => do
-              let (ents', h1) ← mapSetItemAddrH FUEL FUEL st.h ents nk key.1 srcAddr
-              let h2 ← putEnts h1 m ents'
-              pure { st with h := h2 }
-    else if opn == "trem" || opn == "prem" then do
-      let r ← if opn == "prem" then (parseSlot a).map (fun rt => ({ root := rt, path := [] } : Ref)) else parseRef a
-      let key ← parseKey k
-      let m ← mapAt st r
-      match m with
-      | .notMap => pure st
-      | _ =>
-        let ents := match m with | .tbl _ e => e | .pkt _ e => e | .notMap => []
-        match key.2 with
-        | none => pure st
-        | some nk => do
-          let (res, h1) ← mapRemoveItemH st.h ents nk
-          match res with
-          | none => pure { st with h := h1 }
-          | some (e, ents') => do
-            let h2 ← putEnts h1 m ents'
-            if s == "~" then do
-              let h3 ← freeDetached FUEL h2 e
-              pure { st with h := h3 }
-            else match parseSlot s with
-              | some (.val kslot) =>
-                if (st.vals.getD kslot none).isSome then none else pure { (setSlot st kslot (some e)) with h := h2 }
-              | _ => none
-    else none
-  | ["pfree", p] => do
-      let r ← parseSlot p
-      match r with
-      | .pkt i => do
-          let pa ← st.pkts.getD i none
-          let h' ← packetFreeH FUEL st.h pa
-          pure { st with h := h', pkts := st.pkts.set i none }
-      | _ => none
-  | _ => none
-
-def releaseAll (st : St) : Option Heap := do
-  let mut h := st.h
-  for a in st.vals.filterMap id do
-    h ← freeObj h a
-  for p in st.pkts.filterMap id do
-    h ← packetFreeH FUEL h p
-  pure h
-
-def run (ops : List (List String)) : String := Id.run do
-  let mut st := St.init
-  let mut out : List String := []
-  for op in ops do
-    match step st op with
-    | none => out := ("0" ++ summaryStr st.h) :: out
-    | some st1 =>
-      let st' := { st1 with h := compact st1.h }
-      let d : Int := (total st'.h : Int) - (total st.h : Int)
-      out := (toString d ++ summaryStr st'.h) :: out
-      st := st'
-  let fin := match releaseAll st with
+def run (ops : List (List String)) : String :=
+  let hops := ops.map parseOp
+  let states := traceH hops HState.empty
+  let (out, last) := states.foldl (fun (acc : List String × HState) st' =>
+      let d : Int := (total st'.h : Int) - (total acc.2.h : Int)
+      ((toString d ++ summaryStr st'.h) :: acc.1, st')) (([] : List String), HState.empty)
+  let fin := match releaseAll last with
     | some h => toString (total h)
     | none => "fault"
   "vh " ++ " ".intercalate out.reverse ++ " # end=" ++ fin
